@@ -23,12 +23,12 @@ VARIANTS = {
     'maxsize': [C('maxsize')],
     'minsize': [C('minsize')],
     'gen': [C('gen'), C('gen', 1), C('gen', 2)],
-    'gre': [C('gre'), C('gre', 1), C('gre', 2), C('gre', 7)],
-    'mincost': [C('mincost'), C('mincost', 1, 1), C('mincost', 0, 1), C('mincost', 2, 1), C('mincost', 1, 0)],
+    'gre': [C('gre'), C('gre', 1), C('gre', 2), C('gre', 7), C('gre', 12)],
+    'mincost': [C('mincost'), C('mincost', 1, 1), C('mincost', 0, 1), C('mincost', 2, 1), C('mincost', 1, 0), C('mincost', 10, 1)],
     'minsqcost': [C('minsqcost'), C('minsqcost', 1, 1), C('minsqcost', 0, 1), C('minsqcost', 2)],
     'lmb': [C('lmb')],
     'lsb': [C('lsb')],
-    'mincostlsb': [C('mincostlsb'), C('mincostlsb', 1, 2), C('mincostlsb', 0, 1), C('mincostlsb', 2, 0)],
+    'mincostlsb': [C('mincostlsb'), C('mincostlsb', 1, 2), C('mincostlsb', 0, 1), C('mincostlsb', 2, 0), C('mincostlsb', 1, 11)],
 }
 NAMES = list(VARIANTS)
 
